@@ -247,8 +247,8 @@ PROPS['C11'] = {
              'and parties -- the structural reasons for consistency, for all m, t, PRSS on/off.',
 }
 PROPS['C18'] = {
-    'rules': [R(pa.rule_MK1), R(pa.rule_MK2), R(pa.rule_MK5), R(pa.rule_SS1), R(pc.rule_PC9), R(ss.rule_PR1), R(sg.rule_TC1), R(sg.rule_SG1)],
-    'floors': {'MK1': 40, 'MK2': 12, 'MK5': 6, 'SS1': 60, 'PC9': 14, 'PR1': 12, 'TC1': 10, 'SG1': 10},
+    'rules': [R(pa.rule_MK1), R(pa.rule_MK2), R(pa.rule_MK5), R(pa.rule_SS1), R(pc.rule_PC9), R(ss.rule_PR1), R(sg.rule_TC1), R(sg.rule_SG1), R(mk.rule_RB1)],
+    'floors': {'MK1': 40, 'MK2': 12, 'MK5': 6, 'SS1': 60, 'PC9': 14, 'PR1': 12, 'TC1': 10, 'SG1': 10, 'RB1': 1},
     'explanation': 'Scalar and array siblings of the masked-opening protocols draw masks of the same size, open with the same thresholds and re-randomise '
                    'with a fresh PRSS zero-sharing under equivalent conditions (SG1: a sibling that re-randomises one opening less than the other reuses a '
                    'spent mask). For every opening inside library code (runtime, random, statistics, secgroups, seclists, secpols, sectypes) the abstract '
@@ -257,7 +257,7 @@ PROPS['C18'] = {
                    'public by design with its reason (MK1). For statistical masks the bound of the random term, followed through shifts and '
                    'public factors as a linear form in (k, l, f, ...), must reach k bits above the power-of-two offset that marks the magnitude '
                    'of the masked value, on every definition of the bound (MK2). Degree-2t openings are re-randomised/covered (SS1), every mask '
-                   'uses a fresh common PRSS input and zero-sharings have full degree (PC9, PR1).',
+                   'uses a fresh common PRSS input and zero-sharings have full degree (PC9, PR1). A buffer of random bits that is split into a head part (the bits of the mask) and a tail part (the sign masks) is large enough for both under every flag valuation (RB1: an overlap would use one secret bit for two maskings).',
     'assumptions': ['inputs respect the documented ranges (l-bit values; a in [0, n) for np_unit_vector)', 'k = options.sec_param'],
     'level': 'Static data-dependence (abstract interpretation) and symbolic bit-length analysis of all ~55 opening sites. Decides that every value '
              'revealed inside a protocol carries a mask of the required kind and size; the resulting statistical distance is not computed. Found two '
@@ -367,14 +367,17 @@ PROPS['C22'] = {
     'level': 'Static writer/reader agreement check over finfields. Decides the structural conditions for round trips for every field and length.',
 }
 PROPS['C23'] = {
-    'rules': [R(op.rule_OP1, modules=('gfpx',)), R(op.rule_OP4)],
-    'floors': {'OP1': 10, 'OP4': 25},
+    'rules': [R(op.rule_OP1, modules=('gfpx',)), R(op.rule_OP4), R(op.rule_OP8)],
+    'floors': {'OP1': 10, 'OP4': 25, 'OP8': 4},
     'explanation': 'Sibling clauses only: reflected polynomial operators apply the same primitive with swapped operands, comparison mirrors swap (OP1); '
                    'every Polynomial primitive that touches the coefficient-list representation is overridden or aliased in BinaryPolynomial, and the '
-                   'public wrappers hand their operands to the primitive of the same name in the same order (OP4).',
+                   'public wrappers hand their operands to the primitive of the same name in the same order (OP4). In both representations _mod and _divmod '
+                   'hand the dividend back unreduced exactly under deg a < deg b, with the degree taken from the representation\'s own _degree (OP8): '
+                   'the one clause of "deg r < deg b" that is visible in the shape of the code.',
     'assumptions': ['the primitives themselves implement the ring operations correctly: not decided'],
     'level': 'Static override/agreement analysis of gfpx.Polynomial and BinaryPolynomial. Decides the clause "binary and generic representation agree" '
-             'structurally (no primitive silently falls back to list code) and operand order of reflected operators; not the ring laws.',
+             'structurally (no primitive silently falls back to list code), operand order of reflected operators and the early-exit guard of the division '
+             'algorithm; not the ring laws.',
 }
 PROPS['C26'] = {
     'rules': [R(cf.rule_CF3), R(cf.rule_CF4), R(cf.rule_CF2)],
